@@ -46,6 +46,9 @@ def synthetic(rng):
     # 4: blank chain id mixed with named chains, hetero group with its own chain id
     blank = [structures.set_chain(l, " ") for l in fb]
     out.append(("blank + named chain + ligand chain L", "\n".join(fa + ["TER"] + blank + ["TER"] + [structures.set_chain(l, "L") for l in lig]) + "\nEND\n"))
+    seg = lambda l, s_: l.ljust(80)[:72] + s_.ljust(4) + l.ljust(80)[76:]
+    out.append(("blank + named chain, segment identifiers in columns 73-76 (blank chain: segid B1, chain A: segid XA)",
+                "\n".join([seg(l, "XA") for l in fa] + ["TER"] + [seg(l, "B1") for l in blank] + ["TER"]) + "\nEND\n"))
     # 4b: chain identifiers differing only in case are different chains; several models (MODEL records are not chain records)
     out.append(("chains A and a (identifiers differing only in case)", "\n".join(fa + ["TER"] + [structures.set_chain(l, "a") for l in fb] + ["TER"]) + "\nEND\n"))
     out.append(("two models of two chains", structures.as_models(["\n".join(fa + ["TER"] + fb + ["TER"]) + "\n"] * 2)))
